@@ -21,7 +21,7 @@ LEVEL = "exploration"
 def plan(tier):
     if tier == "thorough":
         return dict(rounds=640, examples_per_round=80, wall_cap=3000, job_timeout=1500)
-    return dict(rounds=48, examples_per_round=40, wall_cap=420, job_timeout=600)
+    return dict(rounds=40, examples_per_round=36, wall_cap=420, job_timeout=600)
 
 
 # ------------------------------------------------------------------ scenario strategy
@@ -33,8 +33,11 @@ _adv_k = st.one_of(st.sampled_from([1, 1, 2, 3, 5, 10, 10]), st.integers(1, 60))
 @st.composite
 def _scenario(draw, tier):
     kind = draw(st.sampled_from(["gibbs", "gibbs", "pca", "hmc", "metropolis"]))
-    n = draw(st.sampled_from([1, 2, 2, 3, 3, 4, 4, 5, 6]))
+    n = draw(st.sampled_from([1, 2, 2, 3, 3, 4, 4, 5, 6, 7, 7, 8, 9, 10]))
     d = draw(st.integers(1, 3))
+    if n > 6:  # many chains: keep each one cheap
+        kind = "gibbs" if kind in ("pca", "hmc") else kind
+        d = 1
     bounded = kind in ("pca", "hmc") and draw(st.booleans()) and draw(st.booleans())
     if bounded:
         lo = [draw(st.sampled_from([-2.0, -0.5, 0.0, 10.0])) for _ in range(d)]
@@ -47,7 +50,7 @@ def _scenario(draw, tier):
         tspec = dict(kind=tk, d=d)
     temps = [draw(st.sampled_from([1.0, 1.0, 1.0, 2.0]))]
     for _ in range(n - 1):
-        temps.append(round(temps[-1] * draw(st.sampled_from([1.3, 2.0, 3.0, 5.0])), 4))
+        temps.append(round(temps[-1] * draw(st.sampled_from([1.3, 2.0, 3.0, 5.0] if n <= 6 else [1.2, 1.5, 2.0])), 4))
     timed = draw(st.integers(0, 9)) == 0
     ops = []
     nops = draw(st.integers(1, 6))
